@@ -57,6 +57,10 @@ def main():
     new, listed = findings.split(prop, outcome["violations"], known)
     out_dir = os.path.join(ROOT, "out", prop)
     os.makedirs(out_dir, exist_ok=True)
+    if not rp:
+        for f in os.listdir(out_dir):
+            if f.startswith("violation_"):
+                os.unlink(os.path.join(out_dir, f))
     for sig in sorted({findings.describe(v, k) for v, k in listed}):
         print(f"KNOWN-FINDING: property={prop} {sig}")
     for i, v in enumerate(new[:25]):
